@@ -123,7 +123,14 @@ def check(ctx):
     check_correlation_backfill(ctx)
     check_zero_norm_guard(ctx)
     check_votes_counted_where_cast(ctx)
+    # the profiles compared are log2(CPM + 1) as the matrix class computes
+    # them (rule of C07)
+    from .C07 import check_cpm_formula
+    check_cpm_formula(ctx)
     check_pearson_form(ctx)
+    # the settings reach the stages as configured (sa/rules/forwarding.py)
+    from ..rules.forwarding import check_config_settings_as_requested
+    check_config_settings_as_requested(ctx, {'bootstrap_iteration'})
     # neighbours and correlations of one bootstrap iteration are paired
     # by position: the two lists are filled in lock-step
     # the leaves that compete below a parent come from as_leaves: its
